@@ -14,7 +14,7 @@ def norm_cfg(c):
 
 
 def nin(cfg):
-    if cfg["kind"] in ("Emit", "Unfold"):
+    if cfg["kind"] in ("Emit", "Unfold", "Seq"):
         return 0
     if cfg["kind"] == "New":
         return 1
